@@ -277,12 +277,32 @@ func refTree(c *core.Ctx) *core.N {
 			}
 		}
 	}
-	// tip branches never carry a support (no Newick text can give them one)
+	// tip branches carry no support (no Newick text can give them one) — except, through the library only,
+	// in one reference out of ten: FBP must leave it, TBE must clear it
+	tipSups := funnyOKLib && g.Chance(0.1)
 	for _, l := range leavesOf(t) {
 		l.E.Sup = -1
+		if tipSups && g.Chance(0.4) {
+			l.E.Sup = g.Support(&o)
+		}
 	}
 	resetPPos(t)
 	core.NumberEdges(t)
+	if funnyOKLib && g.Chance(0.15) {
+		// branch ids permuted: what a caller has after Reroot or an edit followed by a re-numbering
+		var es []*core.E
+		var rec func(x *core.N)
+		rec = func(x *core.N) {
+			for _, k := range x.Kids {
+				es = append(es, k.E)
+				rec(k)
+			}
+		}
+		rec(t)
+		for i, j := range g.R.Perm(len(es)) {
+			es[i].Id = j
+		}
+	}
 	return t
 }
 
@@ -1284,6 +1304,9 @@ var threadChoices = []int{2, 4, 16}
 // funnyOK: tip names with blanks, quotes, slashes … only where no Newick text is in the way
 var funnyOK = false
 
+// funnyOKLib: the reference is for the library only (branch ids, tip supports of its own are possible)
+var funnyOKLib = false
+
 // rejectionSeries: the rejection clause holds for every collection and every
 // configuration: the tree on other taxa is put at every position of the
 // collection (lengthened with copies of its valid trees) and both functions run
@@ -1353,8 +1376,9 @@ func rejectionSeries(c *core.Ctx, mode string, ref *core.N, boots []*core.N) {
 func genCase(c *core.Ctx, mode string) {
 	g := c.G
 	funnyOK = mode == "lib"
+	funnyOKLib = mode == "lib"
 	ref := refTree(c)
-	funnyOK = false
+	funnyOK, funnyOKLib = false, false
 	k := 1 + g.Intn(c.Scale(5, 8))
 	if smallFirst || manyTaxa {
 		k = 1 + g.Intn(2)
